@@ -74,6 +74,11 @@ def run(ctx: core.Ctx) -> int:
         n = len(c["rows"])
         c["cuts"] = sorted({rng.randint(1, n) for _ in range(3)}) if n >= 2 else []
         cases.append(c)
+    for _ in range(ctx.n(30, 300)):
+        c = E.gen_pattern_tf_case(rng, ctx)
+        n = len(c["rows"])
+        c["cuts"] = sorted({rng.randint(1, n) for _ in range(3)})
+        cases.append(c)
     for i, c in enumerate(cases):
         ctx.count("eval_falsifier")
         falsify(ctx, c)
